@@ -350,3 +350,26 @@ def place_wire(cls, name, prior):
     if wm:
         d["own"] = {"relative": isinstance(wm, RelativeWidthModifier), "value": f2h(wm.value)}
     return d
+
+
+_CLASS_TABLE = None
+
+
+def class_table():
+    """class name (as the extractor writes it) -> class tree"""
+    global _CLASS_TABLE
+    if _CLASS_TABLE is None:
+        t = {n: cls_tree(c) for n, c in vlib.CLASSES.items()}
+        for c in (ModelInstance, float, np.ndarray):
+            t[c.__name__] = cls_tree(c)
+        _CLASS_TABLE = t
+    return _CLASS_TABLE
+
+
+def library_classes(model, priors):
+    """`prior_class_dict[prior].__name__` per parameter (None: the library has no class for it)"""
+    d = model.prior_class_dict
+    by_id = {}
+    for p, c in d.items():
+        by_id[p.id] = c
+    return [by_id[p.id].__name__ if p.id in by_id else None for p in priors]
